@@ -17,7 +17,67 @@ impl FixtureDatabase {
     /// Analyze a Python file for fixtures and usages.
     /// This is the public API - it cleans up previous definitions before analyzing.
     pub fn analyze_file(&self, file_path: PathBuf, content: &str) {
-        self.analyze_file_internal(file_path, content, true);
+        let file_path = self.get_canonical_path(file_path);
+        self.analyze_file_internal(file_path.clone(), content, true);
+        // An edit may start importing a module the workspace scan never reached
+        // (a scan that is still running follows the imports itself)
+        if self
+            .scans_in_progress
+            .load(std::sync::atomic::Ordering::SeqCst)
+            == 0
+        {
+            self.analyze_unseen_imported_modules(&file_path);
+        }
+    }
+
+    /// Follow the imports (star imports, explicit imports, `pytest_plugins`) of a file that
+    /// was just analysed to modules that are not indexed yet, transitively. The workspace
+    /// scan does this once for the files on disk; without it a fixture module that an edit
+    /// starts importing stays unknown until the server is restarted.
+    fn analyze_unseen_imported_modules(&self, file_path: &Path) {
+        let mut pending = vec![file_path.to_path_buf()];
+        let mut visited: HashSet<PathBuf> = HashSet::new();
+
+        while let Some(path) = pending.pop() {
+            if !visited.insert(path.clone()) {
+                continue;
+            }
+            let Some(content) = self.get_file_content(&path) else {
+                continue;
+            };
+            let Some(parsed) = self.get_parsed_ast(&path, &content) else {
+                continue;
+            };
+            let rustpython_parser::ast::Mod::Module(module) = parsed.as_ref() else {
+                continue;
+            };
+            let line_index = self.get_line_index(&path, &content);
+
+            let mut module_paths: Vec<String> = self
+                .extract_fixture_imports(&module.body, &path, &line_index)
+                .into_iter()
+                .map(|import| import.module_path)
+                .collect();
+            module_paths.extend(self.extract_pytest_plugins(&module.body));
+
+            for module_path in module_paths {
+                let Some(resolved) = self.resolve_module_to_file(&module_path, &path) else {
+                    continue;
+                };
+                let resolved = self.get_canonical_path(resolved);
+                if self.file_cache.contains_key(&resolved)
+                    || self.file_definitions.contains_key(&resolved)
+                    || self.imports.contains_key(&resolved)
+                {
+                    continue; // already indexed
+                }
+                if let Ok(module_content) = std::fs::read_to_string(&resolved) {
+                    debug!("Analyzing newly imported module: {:?}", resolved);
+                    self.analyze_file_internal(resolved.clone(), &module_content, true);
+                    pending.push(resolved);
+                }
+            }
+        }
     }
 
     /// Analyze a file without cleaning up previous definitions.
